@@ -3,13 +3,47 @@ package diff
 import (
 	"math/rand"
 
+	"pgregory.net/rapid"
+
+	"verif/lib/capgen"
+	"verif/lib/execgen"
 	"verif/lib/prog"
+	"verif/lib/resgen"
 	"verif/lib/splicegen"
+	"verif/lib/storgen"
+	"verif/lib/vir/virhost"
 )
 
 // One line per history source. Each Next must be a pure function of r.
 func init() {
-	register(Source{Name: "splice", Weight: 6,
+	register(Source{Name: "splice", Weight: 12,
 		Next:  func(r *rand.Rand) (prog.History, bool) { h, _ := splicegen.Load().Next(r); return h, true },
 		Stats: func() map[string]any { return splicegen.Load().Stats() }})
+	register(Source{Name: "grammar", Weight: 6, Next: splicegen.Grammar, Stats: splicegen.GrammarStats})
+	// generators of the other groups (histories with their own reference models; here only executed and compared)
+	register(Source{Name: "storgen-containers", Weight: 1, Next: func(r *rand.Rand) (prog.History, bool) {
+		return storgen.GenContHistory(storgen.FromRand(r), storgen.ContGenConfig{MaxExecs: 8}).History(), true
+	}})
+	register(Source{Name: "storgen-map", Weight: 1, Next: func(r *rand.Rand) (prog.History, bool) {
+		return storgen.GenMapHistory(storgen.FromRand(r), storgen.MapGenConfig{MaxExecs: 8}).History(), true
+	}})
+	register(Source{Name: "storgen-nested", Weight: 1, Next: func(r *rand.Rand) (prog.History, bool) {
+		return storgen.GenNestHistory(storgen.FromRand(r), storgen.NestGenConfig{MaxExecs: 8}).History(), true
+	}})
+	register(Source{Name: "capgen-capabilities", Weight: 1, Next: func(r *rand.Rand) (prog.History, bool) {
+		return capgen.GenCapHistory(capgen.Rand{R: r}, capgen.CapGenOptions{MaxActions: 12}).Prog(), true
+	}})
+	register(Source{Name: "capgen-contracts", Weight: 1, Next: func(r *rand.Rand) (prog.History, bool) {
+		return capgen.GenContractHistory(capgen.Rand{R: r}, capgen.ContractGenOptions{MaxActions: 10}).Prog(), true
+	}})
+	register(Source{Name: "resgen", Weight: 1, Next: func(r *rand.Rand) (prog.History, bool) {
+		return resgen.Generate(resgen.FromRand(r), resgen.DefaultOptions()).Prog, true
+	}})
+	register(Source{Name: "execgen-templates", Weight: 1, Next: func(r *rand.Rand) (prog.History, bool) {
+		hs := execgen.Templates(r, 1+r.Intn(9))
+		return hs[len(hs)-1], true
+	}})
+	register(Source{Name: "vir", Weight: 2, Next: func(r *rand.Rand) (prog.History, bool) {
+		return rapid.Custom(virhost.GenHistory).Example(int(r.Int31())), true
+	}})
 }
